@@ -41,7 +41,16 @@ func (v *vclock) set(i int, c int32) {
 
 func (v vclock) clone() vclock { return append(vclock(nil), v...) }
 
+type schedEv struct {
+	G     int    `json:"g"`     // goroutine making the transfer
+	Point int    `json:"p"`     // its instrumented sync point counter at that moment
+	Kind  string `json:"k"`     // preempt | block | exit
+	Next  int    `json:"n"`     // goroutine receiving the token
+}
+
 type Gor struct {
+	points  int  // instrumented synchronisation points passed so far
+	siteOK  bool // the current external call comes from instrumentable code
 	id      int
 	wake    chan struct{}
 	done    bool
@@ -144,13 +153,18 @@ func (e *Engine) switchTo(g, next *Gor) {
 
 // yield is a scheduling point at which g stays enabled.
 func (e *Engine) yield(g *Gor, what string) {
-	if !e.multi {
-		return
-	}
 	if g == nil {
 		g = e.cur
 	}
-	g.vc.set(g.id, g.vc.get(g.id)+1)
+	if !g.siteOK {
+		// synchronisation inside models / the standard library is treated as
+		// atomic: no preemption there (it could not be replayed natively)
+		return
+	}
+	g.points++
+	if !e.multi {
+		return
+	}
 	others := e.enabledOthers(g)
 	if len(others) == 0 {
 		return
@@ -163,6 +177,7 @@ func (e *Engine) yield(g *Gor, what string) {
 		return
 	}
 	e.preempts++
+	e.schedLog = append(e.schedLog, schedEv{G: g.id, Point: g.points, Kind: "preempt", Next: others[choice-1].id})
 	e.switchTo(g, others[choice-1])
 }
 
@@ -187,6 +202,7 @@ func (e *Engine) blockOn(g *Gor, cond func() bool, desc string) {
 		if len(others) > 1 {
 			choice = e.decideN("sched", len(others))
 		}
+		e.schedLog = append(e.schedLog, schedEv{G: g.id, Point: g.points, Kind: "block", Next: others[choice].id})
 		e.switchTo(g, others[choice])
 		if cond() {
 			break
@@ -215,6 +231,7 @@ func (e *Engine) exitGor(g *Gor) {
 	if len(others) > 1 {
 		choice = e.decideN("sched", len(others))
 	}
+	e.schedLog = append(e.schedLog, schedEv{G: g.id, Point: g.points, Kind: "exit", Next: others[choice].id})
 	e.switchTo(g, others[choice])
 }
 
